@@ -19,6 +19,7 @@ included), every coefficient row, every selection / restart rule, every feedback
         `gop_tell_noop`, `gop_before_gradients`, `gop_jac_persistent`
 * T19.4 `zero_parents_fixpoint`, `zero_parents_defect_witness`
 * T19.5 `step_toward_mean`, `step_on_segment`, `step_full_lr`, `mean_in_hull`
+* T19.5 (Adam) `effGrad_no_l2`, `l2_pulls_toward_origin`, `effGrad_sub`, `adam_first_step_dir`, `adam_first_tell`
 * T19.6 `restart_recentres`, `no_restart_keeps_counters`, `restart_iff`
 -/
 namespace Pyribs.C19
@@ -528,6 +529,64 @@ theorem mean_single (w : Nat → Rat) (P : Nat → Vec) (h : w 0 = 1) : wmean 1 
   funext k
   simp [wmean, sumTo, h]
 
+/-! ## T19.5 (Adam) the L2 term and the first step after a reset -/
+
+theorem effGrad_no_l2 (g θ : Vec) : effGrad g θ 0 = g := by
+  funext k; simp [effGrad]
+
+/-- the documented L2 regulariser pulls towards the origin: where the emitter's own gradient vanishes, the
+gradient Adam ascends points from θ to 0 (it has the sign of −θ), for every `l2_coeff > 0` -/
+theorem l2_pulls_toward_origin (g θ : Vec) (c : Rat) (k : Nat) (hc : 0 < c) (hg : g k = 0) :
+    (0 < θ k → effGrad g θ c k < 0) ∧ (θ k < 0 → 0 < effGrad g θ c k) := by
+  simp only [effGrad, hg]
+  constructor
+  · intro h; nlinarith [mul_pos hc h]
+  · intro h; nlinarith [mul_pos hc (neg_pos.mpr h)]
+
+/-- … and in general it lowers the ascent gradient by exactly `c·θ` -/
+theorem effGrad_sub (g θ : Vec) (c : Rat) (k : Nat) : g k - effGrad g θ c k = c * θ k := by
+  simp [effGrad]
+
+theorem absQ_of_pos (x : Rat) (h : 0 < x) : absQ x = x := by
+  unfold absQ; rw [if_neg (by linarith)]
+
+theorem absQ_of_neg (x : Rat) (h : x < 0) : absQ x = -x := by
+  unfold absQ; rw [if_pos h]
+
+/-- T19.5 for Adam: the first step after a reset moves every coordinate in the direction of the ascent
+gradient (L2 term included) by less than `lr`, and leaves it where the gradient vanishes -/
+theorem adam_first_step_dir (lr ε' : Rat) (hlr : 0 < lr) (hε : 0 < ε') (θ e : Vec) (k : Nat) :
+    (0 < e k → θ k < adamFirstStep lr ε' θ e k ∧ adamFirstStep lr ε' θ e k < θ k + lr) ∧
+    (e k < 0 → θ k - lr < adamFirstStep lr ε' θ e k ∧ adamFirstStep lr ε' θ e k < θ k) ∧
+    (e k = 0 → adamFirstStep lr ε' θ e k = θ k) := by
+  refine ⟨?_, ?_, ?_⟩
+  · intro h
+    simp only [adamFirstStep, absQ_of_pos _ h]
+    have hd : 0 < e k + ε' := by linarith
+    have h1 : 0 < lr * e k / (e k + ε') := div_pos (mul_pos hlr h) hd
+    have h2 : lr * e k / (e k + ε') < lr := by
+      rw [div_lt_iff₀ hd]; nlinarith [mul_pos hlr hε]
+    constructor <;> linarith
+  · intro h
+    simp only [adamFirstStep, absQ_of_neg _ h]
+    have hd : 0 < -e k + ε' := by linarith
+    have h1 : lr * e k / (-e k + ε') < 0 := by
+      rw [div_lt_iff₀ hd]; nlinarith [mul_pos hlr (neg_pos.mpr h)]
+    have h2 : -lr < lr * e k / (-e k + ε') := by
+      rw [lt_div_iff₀ hd]; nlinarith [mul_pos hlr hε]
+    constructor <;> linarith
+  · intro h
+    simp [adamFirstStep, h]
+
+/-- the emitter's `tell` with Adam's first step: θ' = θ + lr·e/(|e| + ε'), `e = (mean − θ) − l2·θ` -/
+theorem adam_first_tell (c : Gae.Cfg) (lr l2 ε' : Rat) (hopt : c.opt = adamFirst lr l2 ε') (θ : Vec)
+    (t : Gae.TellIn) (np : Nat) (hnp : np ≠ 0) (k : Nat) :
+    Gae.stepTheta c θ t np k =
+      θ k + lr * ((wmean np t.weights (Gae.parent t) k - θ k) - l2 * θ k) /
+        (absQ ((wmean np t.weights (Gae.parent t) k - θ k) - l2 * θ k) + ε') := by
+  simp only [Gae.stepTheta, hnp, if_false, hopt, adamFirst, GradOpt.step, adamFirstStep, effGrad,
+    Gae.tellGrad, vsub]
+
 /-! ## T19.6 restart -/
 
 /-- when does `tell` restart: the strategy says stop, or the emitter's rule fires on the incremented
@@ -618,6 +677,15 @@ theorem nonvacuous_gop_bounded :
     r1.1.parents.map (toList 2) = [[1, 0]] ∧
     (match r2.2 with | .rows rs => rs.map (toList 2) | _ => []) = [[1 / 2, 1]] ∧
     toList 2 (Gop.clipV c (gopObjOnly (ofList [3, 0]) (matOfLists [[-1, 4], [0, 0]]) (1 / 2))) = [1, 1] := by
+  decide +kernel
+
+/-- Adam's first step with L2: θ = (3, −2), mean = θ (no pull from the selected solutions), l2 = 10,
+lr = 1/20, ε' = 1/1000: the ascent gradient is −10·θ = (−30, 20) and θ moves towards the origin by a little
+less than lr in each coordinate -/
+theorem nonvacuous_adam_l2 :
+    toList 2 (effGrad (ofList [0, 0]) (ofList [3, -2]) 10) = [-30, 20] ∧
+    toList 2 (adamFirstStep (1 / 20) (1 / 1000) (ofList [3, -2]) (effGrad (ofList [0, 0]) (ofList [3, -2]) 10))
+      = [3 - 1500 / 30001, -2 + 1000 / 20001] := by
   decide +kernel
 
 end Pyribs.C19
